@@ -12,7 +12,7 @@ type harnessConfig struct {
 	Mounts     []string // virtual=real
 }
 
-const rootInstrumented = "./internal/counter,./internal/mmap,./internal/telemetry,./internal/upload,.,./cmd/gotelemetry,./counter"
+const rootInstrumented = "./internal/counter,./internal/mmap,./internal/telemetry,./internal/upload,./internal/configstore,.,./cmd/gotelemetry,./counter"
 
 var commonMounts = []string{
 	"internal/verifsim/simrt=sim/simrt",
@@ -40,20 +40,18 @@ var harnesses = map[string]*harnessConfig{
 		Package: "./cmd/telemetrygodev", Module: "godev", TestHosted: true,
 		// Only the uploader side is instrumented (transport, config stub): the
 		// handler chain runs its own goroutines (http.TimeoutHandler).
-		RootPkgs: "./internal/telemetry,./internal/upload",
+		RootPkgs: "./internal/telemetry,./internal/upload,./internal/configstore",
 		Mounts: append(append([]string{}, commonMounts...),
 			"internal/verifsim/ref/refcfg=sim/ref/refcfg",
 			"internal/verifsim/ref/refreport=sim/ref/refreport",
 			"internal/verifsim/mgen=sim/mgen",
-			"godev/cmd/telemetrygodev=sim/harness/h3",
-			"internal/configstore=sim/shims/configstore"),
+			"godev/cmd/telemetrygodev=sim/harness/h3"),
 	},
 	"h7": {
 		Package: ".", TestHosted: true,
 		RootPkgs: rootInstrumented,
 		Mounts: append(append([]string{}, commonMounts...),
 			".=sim/harness/h7",
-			"internal/configstore=sim/shims/configstore",
 			"internal/crashmonitor=sim/shims/crashmonitor",
 			"internal/counter=sim/shims/counter"),
 	},
@@ -62,7 +60,7 @@ var harnesses = map[string]*harnessConfig{
 		// internal/counter is left uninstrumented here: the uploader only parses
 		// files, and a scheduling point at every atomic load of Parse would drown
 		// the file-system-call granularity this world is about.
-		RootPkgs: "./internal/telemetry,./internal/upload,.,./cmd/gotelemetry",
+		RootPkgs: "./internal/telemetry,./internal/upload,./internal/configstore,.,./cmd/gotelemetry",
 		TickPkgs: "./internal/counter",
 		Mounts: append(append([]string{}, commonMounts...),
 			"internal/verifsim/ref/refcfg=sim/ref/refcfg",
@@ -70,7 +68,6 @@ var harnesses = map[string]*harnessConfig{
 			"internal/verifsim/mgen=sim/mgen",
 			"cmd/gotelemetry=sim/harness/h2",
 			"cmd/gotelemetry/internal/view=sim/shims/view",
-			"internal/configstore=sim/shims/configstore",
 			"internal/counter=sim/shims/counter"),
 	},
 	"h1": {
@@ -208,7 +205,7 @@ var props = map[string]*propConfig{
 		QuickBudget: 100 * time.Second, ThoroughBudget: 25 * time.Minute, Chunk: 50,
 		Rule:        "one run = a machine history of 2..4 rounds over simulated weeks: counter files of 3 programs x versions x Go versions x platforms (expired, active, empty, unreadable, near-miss names), then 1..4 concurrent real upload.Run calls in mode on or local scheduled at file-system/HTTP-call granularity with tape-permuted map order, server fates from the tape; after each round the reference aggregation is compared with local.<week>.json for every week that had no report, the call log is checked for removals before a report exists and for any mutating call on active/unreadable files, and existing reports must keep their bytes; distinct = distinct event-log hash; non-trivial = at least one context switch between live uploaders; in a third of the runs the machine lives in a local time zone (UTC-8, UTC+14, UTC-11:30) that every time.Now() carries, and one uploader in five is handed its start time in such a zone; a program named local.tool is in the pool; the directory name may carry a date; foreign json files, a debug directory with data-named files, several files of one build in a week, near-miss identities, empty metadata values and values up to 2^50 occur; a configuration may be published in mid-round; removal-after-disk-failure: after each enumerated single call failure of the upload-failure world (see C05) a counter file that is gone must belong to a week that has a report (evaluations = executions)",
 		Real:        []string{"internal/upload (all of it: findWork, reports, createReport, uploadReport; instrumented)", "internal/telemetry (mode file)", "internal/config", "internal/counter.Parse (uninstrumented in this world)", "cmd/gotelemetry runOn/runLocal/runOff/runClean", "Linux tmpfs (O_EXCL, link, rename semantics are the kernel's)"},
-		Stub:        []string{"internal/configstore.Download replaced by a stub that hands out the simulated config store's current version (the real one runs `go mod download`)", "upload server: a policy stub deciding each request's fate (200 / 4xx / 5xx / no answer / processed-but-answer-lost / duplicate delivery); its verdict on a given body is stable", "counter files are produced by the independent encoder (refformat)", "crypto/rand.Reader replaced so that X is chosen by the tape", "Go scheduler, wall clock"},
+		Stub:        []string{"the `go` command that internal/configstore.Download runs (`go mod download -json`): simulated, it prints the module directory of the simulated config store's current version; Download itself is the real code", "upload server: a policy stub deciding each request's fate (200 / 4xx / 5xx / no answer / processed-but-answer-lost / duplicate delivery); its verdict on a given body is stable", "counter files are produced by the independent encoder (refformat)", "crypto/rand.Reader replaced so that X is chosen by the tape", "Go scheduler, wall clock"},
 		Assumptions: []string{"weeks mixing expired and unexpired files of one end date are not generated (ends are midnights)", "sums stay far below 2^62", "sampling, not enumeration"},
 		Probes:      []string{"week-reported"},
 	},
@@ -222,7 +219,7 @@ var props = map[string]*propConfig{
 		QuickBudget: 100 * time.Second, ThoroughBudget: 13 * time.Minute, Chunk: 50,
 		Rule:        "as C07 in mode on with 2..4 concurrent uploaders per round and per-request server fates (200, 4xx, 5xx, no answer, processed-but-answer-lost, duplicate delivery); kills family: an uploader is killed after a file-system or HTTP call with probability 1/150 per marked call (nothing unwound: the lock file stays); checked over the server-side history: all accepted bodies of a week identical, no request for a week that was acknowledged and recorded as uploaded, after 5xx/no answer the receiving task leaves the report alone, after 4xx it does not mark it uploaded; no-kill family additionally: once the server answers 200, three more sequential runs deliver every sendable week, each acknowledged to a client exactly once; client-error answers are drawn from 400..499 and server-error answers from 500..599; one round in ten is preceded by the clock being set back 1..20 days; one crash-free run in eight has an upload directory that cannot be created: delivery is not demanded there, more than one acknowledgement of a week is a violation; rerun-after-disk-failure: each single call failure of the upload-failure world (see C05) is followed by two more runs on a healthy disk, after which no week that was acknowledged while its uploaded marker existed may have been sent again (evaluations = executions)",
 		Real:        []string{"internal/upload (all of it: findWork, reports, createReport, uploadReport; instrumented)", "internal/telemetry (mode file)", "internal/config", "internal/counter.Parse (uninstrumented in this world)", "cmd/gotelemetry runOn/runLocal/runOff/runClean", "Linux tmpfs (O_EXCL, link, rename semantics are the kernel's)"},
-		Stub:        []string{"internal/configstore.Download replaced by a stub that hands out the simulated config store's current version (the real one runs `go mod download`)", "upload server: a policy stub deciding each request's fate (200 / 4xx / 5xx / no answer / processed-but-answer-lost / duplicate delivery); its verdict on a given body is stable", "counter files are produced by the independent encoder (refformat)", "crypto/rand.Reader replaced so that X is chosen by the tape", "Go scheduler, wall clock"},
+		Stub:        []string{"the `go` command that internal/configstore.Download runs (`go mod download -json`): simulated, it prints the module directory of the simulated config store's current version; Download itself is the real code", "upload server: a policy stub deciding each request's fate (200 / 4xx / 5xx / no answer / processed-but-answer-lost / duplicate delivery); its verdict on a given body is stable", "counter files are produced by the independent encoder (refformat)", "crypto/rand.Reader replaced so that X is chosen by the tape", "Go scheduler, wall clock"},
 		Assumptions: []string{"the server is adversarial about availability, not validity: it never accepts a body it has rejected, nor rejects one it has accepted", "liveness is claimed without kills only (a kill legitimately leaves a stale lock)", "kill = SIGKILL between two calls"},
 		Probes:      []string{"kill after http:post", "kill after fs:link"},
 	},
@@ -232,7 +229,7 @@ var props = map[string]*propConfig{
 		QuickBudget: 100 * time.Second, ThoroughBudget: 25 * time.Minute, Chunk: 50,
 		Rule:        "C07's histories in mode on with tape-generated upload configs (program/version/Go-version lists, bucketed counters, stacks, rates in {0, 1, 1/2, 1/2 +- 2^-20, 3/4}, sample rate) whose version changes between rounds, local names that are exact, wrong-bucket, prefix, suffix and literal-brace near-misses of approved names, stack counters whose first line is an approved plain counter, and X forced through crypto/rand.Reader to dyadic values equal and adjacent to the rates; every request body seen by the transport is compared field by field with refreport.Filter(aggregate of the week's files, config fetched by the run that built that report, the body's X), including that nothing else is in the body or URL",
 		Real:        []string{"internal/upload (all of it: findWork, reports, createReport, uploadReport; instrumented)", "internal/telemetry (mode file)", "internal/config", "internal/counter.Parse (uninstrumented in this world)", "cmd/gotelemetry runOn/runLocal/runOff/runClean", "Linux tmpfs (O_EXCL, link, rename semantics are the kernel's)"},
-		Stub:        []string{"internal/configstore.Download replaced by a stub that hands out the simulated config store's current version (the real one runs `go mod download`)", "upload server: a policy stub deciding each request's fate (200 / 4xx / 5xx / no answer / processed-but-answer-lost / duplicate delivery); its verdict on a given body is stable", "counter files are produced by the independent encoder (refformat)", "crypto/rand.Reader replaced so that X is chosen by the tape", "Go scheduler, wall clock"},
+		Stub:        []string{"the `go` command that internal/configstore.Download runs (`go mod download -json`): simulated, it prints the module directory of the simulated config store's current version; Download itself is the real code", "upload server: a policy stub deciding each request's fate (200 / 4xx / 5xx / no answer / processed-but-answer-lost / duplicate delivery); its verdict on a given body is stable", "counter files are produced by the independent encoder (refformat)", "crypto/rand.Reader replaced so that X is chosen by the tape", "Go scheduler, wall clock"},
 		Assumptions: []string{"configs with duplicate names at different rates or malformed bucket syntax are not generated (the documentation does not order them)", "a program build without any data may or may not be listed"},
 		Probes:      []string{"week-reported"},
 	},
@@ -245,7 +242,7 @@ var props = map[string]*propConfig{
 		QuickBudget: 100 * time.Second, ThoroughBudget: 25 * time.Minute, Chunk: 50,
 		Rule:        "histories in which between rounds the mode changes (SetModeAsOf with back-dated opt-in dates, arbitrary bytes in the mode file, invalid modes) and counter-file begin/end, opt-in date and run time are placed on a simulated calendar; per request: the independently parsed mode is exactly on, the week is not in the future and after the opt-in date; per uploadable report: built in mode on, week not older than 21 days, X not above a positive sample rate, all data strictly after the opt-in date; rounds in mode off: no mutating call on and no change to any counter file or report; SetModeAsOf/Mode round trip and rejection of invalid modes leaving the bytes unchanged; a third of the library calls are SetMode without a time (today's UTC date must be read back, also when the file already names that mode); the mode file may be removed; one start in five is placed exactly 21 days after a week's end (-1 ns, 0, +1 ns)",
 		Real:        []string{"internal/upload (all of it: findWork, reports, createReport, uploadReport; instrumented)", "internal/telemetry (mode file)", "internal/config", "internal/counter.Parse (uninstrumented in this world)", "cmd/gotelemetry runOn/runLocal/runOff/runClean", "Linux tmpfs (O_EXCL, link, rename semantics are the kernel's)"},
-		Stub:        []string{"internal/configstore.Download replaced by a stub that hands out the simulated config store's current version (the real one runs `go mod download`)", "upload server: a policy stub deciding each request's fate (200 / 4xx / 5xx / no answer / processed-but-answer-lost / duplicate delivery); its verdict on a given body is stable", "counter files are produced by the independent encoder (refformat)", "crypto/rand.Reader replaced so that X is chosen by the tape", "Go scheduler, wall clock"},
+		Stub:        []string{"the `go` command that internal/configstore.Download runs (`go mod download -json`): simulated, it prints the module directory of the simulated config store's current version; Download itself is the real code", "upload server: a policy stub deciding each request's fate (200 / 4xx / 5xx / no answer / processed-but-answer-lost / duplicate delivery); its verdict on a given body is stable", "counter files are produced by the independent encoder (refformat)", "crypto/rand.Reader replaced so that X is chosen by the tape", "Go scheduler, wall clock"},
 		Assumptions: []string{"counter-api-off family (counter world): with the mode file saying off when the process starts, Open / OpenAndRotate (package-level and per-file), increments, the rotation timer and clock jumps perform no mutating file-system call and leave the directory (incl. data left from earlier) byte-identical", "an unreadable mode file is modelled by content the parser cannot read, not by permissions (the sandbox runs as root)"},
 		Probes:      []string{"week-reported"},
 	},
@@ -255,7 +252,7 @@ var props = map[string]*propConfig{
 		QuickBudget: 100 * time.Second, ThoroughBudget: 25 * time.Minute, Chunk: 50,
 		Rule:        "machine histories in which the user runs the real gotelemetry on / local / off / clean (their os.Exit paths simulated) between uploader rounds over directories populated by the simulation plus foreign files whose names match exactly, nearly (x.v1.count.bak, y.jsonx, z.v2.count, .json.swp, report.JSON) or not at all the data-file patterns, and sub-directories; after clean exactly the counter files and reports are gone and everything else hashes the same; a mode command leaves the file byte-identical when the mode is already the requested one, otherwise writes `<mode> <simulated UTC date>` which the library reads back; before clean the upload directory may not exist yet or local/ may have been removed by hand, and non-empty sub-directories named like data files hold foreign files; one command in five finds a mode file that holds no valid mode",
 		Real:        []string{"internal/upload (all of it: findWork, reports, createReport, uploadReport; instrumented)", "internal/telemetry (mode file)", "internal/config", "internal/counter.Parse (uninstrumented in this world)", "cmd/gotelemetry runOn/runLocal/runOff/runClean", "Linux tmpfs (O_EXCL, link, rename semantics are the kernel's)"},
-		Stub:        []string{"internal/configstore.Download replaced by a stub that hands out the simulated config store's current version (the real one runs `go mod download`)", "upload server: a policy stub deciding each request's fate (200 / 4xx / 5xx / no answer / processed-but-answer-lost / duplicate delivery); its verdict on a given body is stable", "counter files are produced by the independent encoder (refformat)", "crypto/rand.Reader replaced so that X is chosen by the tape", "Go scheduler, wall clock"},
+		Stub:        []string{"the `go` command that internal/configstore.Download runs (`go mod download -json`): simulated, it prints the module directory of the simulated config store's current version; Download itself is the real code", "upload server: a policy stub deciding each request's fate (200 / 4xx / 5xx / no answer / processed-but-answer-lost / duplicate delivery); its verdict on a given body is stable", "counter files are produced by the independent encoder (refformat)", "crypto/rand.Reader replaced so that X is chosen by the tape", "Go scheduler, wall clock"},
 		Assumptions: []string{"sub-directories do not carry data suffixes (whether a directory called x.json is a report is not decided by the statement)"},
 		Probes:      []string{"clean"},
 	},
@@ -268,7 +265,7 @@ var props = map[string]*propConfig{
 		QuickBudget: 100 * time.Second, ThoroughBudget: 12 * time.Minute, Chunk: 50,
 		Rule:        "one run = 2..8 starter processes (child marker unset / 1 / 2 / junk, crash-reporting flag, upload flag) calling the real Start concurrently with mode on / local / off / missing / garbage and the upload token absent / fresh / stale (incl. exactly 24 h), interleaved at file-system-call granularity (stat token, remove, exclusive create), some starters hours apart; spawned children run the real child path (marker rewrite, counter.Open, upload.Run) and the stubbed config download spawns a descendant that calls Start again; checked at every spawn: mode not off, spawner not a telemetry child or descendant, upload flag only with a token acquired in this call and requested, otherwise crash reporting requested; mode off: no mutating call, directory unchanged; within-24h family: at most one token acquisition (none if a fresh token exists); a third of the processes enter through MaybeChild before Start (only a process marked 1 may stay in it); mode files as the commands write them or hand-written (no date, trailing newline, CRLF, surrounding spaces); a separate per-user default directory with its own mode; the n-th start of a telemetry child may fail and the debug directory may exist (sidecar.log possibly a directory); marker near-misses (0, 3, 01, 1 with a trailing space, true, 11); an inherited upload variable; one file-system call of the run may fail; a process in the sidecar role may touch nothing before it has rewritten its marker",
 		Real:        []string{"Start, parent, startChild, child, uploaderChild, acquireUploadToken (start.go)", "counter.Open / internal/counter", "internal/upload.Run", "internal/telemetry"},
-		Stub:        []string{"process creation, environment, os.Exit, log.Fatal: simulated process table", "internal/crashmonitor.Parent/Child (they take over crash output and stdin)", "internal/configstore.Download: spawns a simulated `go mod download` descendant that calls Start with the inherited environment, then returns an empty config", "upload server (always 200)", "clock and file modification times"},
+		Stub:        []string{"process creation, environment, os.Exit, log.Fatal: simulated process table", "internal/crashmonitor.Parent/Child (they take over crash output and stdin)", "the `go` command run by internal/configstore.Download (real code): a simulated descendant that calls Start with the inherited environment and prints the directory of an empty config", "upload server (always 200)", "clock and file modification times"},
 		Assumptions: []string{"simulated processes share one address space: package-level state of internal/counter (the default file) is shared by them", "the statement is only-if: whether a child must be launched when permitted is not checked"},
 		Probes:      []string{"spawned", "token-acquired", "mode-off", "token-2"},
 	},
@@ -290,7 +287,7 @@ var props = map[string]*propConfig{
 		QuickBudget: 100 * time.Second, ThoroughBudget: 20 * time.Minute, Chunk: 50,
 		Rule:        "one run = a generated upload configuration, 2..6 counter files (several programs, versions, Go versions, platforms incl. unlisted ones, near-miss counter and stack names), one real upload.Run whose every request is delivered by the simulated transport to the real upload handler configured with the same configuration (must answer 200); then each produced body is re-delivered six times with one field changed to a near-miss (program, version, Go version, GOOS, GOARCH, counter, stack first line): the handler must answer 4xx exactly when the reference semantics put the changed report outside the configuration",
 		Real:        []string{"internal/upload (uploader filter)", "godev/cmd/telemetrygodev validate/handleUpload + middleware", "internal/config"},
-		Stub:        []string{"transport simulated (no socket)", "configstore.Download stub", "counter files from the independent encoder", "viewer family: the viewer's newCounterFile/summary are evaluated on generated files and configurations and compared with the same reference semantics (active flags per metadata item, counter and stack; summary text)"},
+		Stub:        []string{"transport simulated (no socket)", "the `go` command run by configstore.Download (real code) is simulated", "counter files from the independent encoder", "viewer family: the viewer's newCounterFile/summary are evaluated on generated files and configurations and compared with the same reference semantics (active flags per metadata item, counter and stack; summary text)"},
 		Assumptions: []string{"refcfg is the documented semantics"},
 		Probes:      []string{"uploader-bodies"},
 	},
